@@ -341,9 +341,12 @@ func main() {
 	part3PayloadBinding(r)
 	part4ProposalBinding(r)
 	part5VerifyCoverage(r)
+	part6Provenance(r)
 	if r.NViolations() == 0 {
 		r.Require("roundtrip_ok", "payload_codec_ok", "payload_verify_accept", "payload_mutant_rejected", "payload_wire_decode_reject",
-			"payload_wire_verify_reject", "proposal_verify_accept", "proposal_mutant_rejected", "proposal_wire_decode_reject", "proposal_wire_verify_reject")
+			"payload_wire_verify_reject", "proposal_verify_accept", "proposal_mutant_rejected", "proposal_wire_decode_reject", "proposal_wire_verify_reject",
+			"provenance_payload_accept", "provenance_payload_mutant_rejected", "provenance_proposal_accept", "provenance_proposal_mutant_rejected",
+			"provenance_vote_accept", "provenance_vote_mutant_rejected")
 	}
 	r.Assume("ECDSA P-256 / SHA256withECDSA keys (polyenv deterministic keys), the only scheme the consensus accounts of this code base use",
 		"signature *encoding* malleability (64-byte raw vs scheme-prefixed form) is not a content change and is not explored",
@@ -1406,4 +1409,449 @@ func part5VerifyCoverage(r *ev.Run) {
 	cov["blockProposalMsg.Verify"] = "Block.Header.SigData[0] over Block header hash (header-unsigned fields; transactions via TransactionsRoot, which the block decoder re-checks) and, if an EmptyBlock is present, the same for it; Bookkeepers, SigData[1:] and the presence of EmptyBlock are covered by no proposal signature"
 	cov["ConsensusPayload.Verify"] = "Signature by Owner over SerializeUnsigned = Version, PrevHash, Height, BookkeeperIndex, Timestamp, Data; PeerId is local only (neither encoded nor signed)"
 	r.Note("verify_functions_and_coverage", cov)
+}
+
+// ------------------------------------------------------------------------------------------------
+// Part 6 — the binding holds for objects in every provenance state, not only freshly built ones:
+// built in memory / decoded (each decoder) / decoded-re-encoded-decoded / an object that held ANOTHER signed message and
+// was refilled (each decoder, field assignment). In each state: the unmutated object verifies and encodes to the
+// original bytes; every field mutation applied AFTER that makes Verify fail and shows in the encoding (no stale cache).
+
+type plProv struct {
+	name, class string
+	make        func() (*ptypes.ConsensusPayload, error)
+}
+
+func assignPayload(dst, src *ptypes.ConsensusPayload) {
+	dst.Version, dst.PrevHash, dst.Height, dst.BookkeeperIndex, dst.Timestamp = src.Version, src.PrevHash, src.Height, src.BookkeeperIndex, src.Timestamp
+	dst.Data, dst.Owner, dst.Signature = append([]byte{}, src.Data...), src.Owner, append([]byte{}, src.Signature...)
+}
+
+func payloadProvenances(orig, other *ptypes.ConsensusPayload) []plProv {
+	wire := func() []byte { return append([]byte{}, encZC(orig)...) }
+	owire := func() []byte { return append([]byte{}, encZC(other)...) }
+	intoZC := func(p *ptypes.ConsensusPayload, b []byte) error {
+		var err error
+		if rec, pn := ev.Guard(func() { err = p.Deserialization(common.NewZeroCopySource(b)) }); pn {
+			return fmt.Errorf("panic: %v", rec)
+		}
+		return err
+	}
+	intoStream := func(p *ptypes.ConsensusPayload, b []byte) error {
+		var err error
+		if rec, pn := ev.Guard(func() { err = p.Deserialize(bytes.NewReader(b)) }); pn {
+			return fmt.Errorf("panic: %v", rec)
+		}
+		return err
+	}
+	out := []plProv{
+		{"built", "built", func() (*ptypes.ConsensusPayload, error) { p := &ptypes.ConsensusPayload{}; assignPayload(p, orig); return p, nil }},
+		{"decoded/zero-copy", "decoded-zero-copy", func() (*ptypes.ConsensusPayload, error) { return decZC(wire()) }},
+		{"decoded/streaming", "decoded-streaming", func() (*ptypes.ConsensusPayload, error) { return decStream(wire()) }},
+		{"decoded/consensus-wrapper", "decoded-zero-copy", func() (*ptypes.ConsensusPayload, error) {
+			w := &ptypes.Consensus{}
+			err := w.Deserialization(common.NewZeroCopySource(wire()))
+			return &w.Cons, err
+		}},
+	}
+	decs := map[string]func([]byte) (*ptypes.ConsensusPayload, error){"zero-copy": decZC, "streaming": decStream}
+	encs := map[string]func(*ptypes.ConsensusPayload) []byte{"zero-copy": encZC, "streaming": encStream}
+	for _, d1 := range []string{"zero-copy", "streaming"} {
+		for _, e := range []string{"zero-copy", "streaming"} {
+			for _, d2 := range []string{"zero-copy", "streaming"} {
+				d1, e, d2 := d1, e, d2
+				out = append(out, plProv{"reencoded/" + d1 + ">" + e + ">" + d2, "reencoded", func() (*ptypes.ConsensusPayload, error) {
+					p, err := decs[d1](wire())
+					if err != nil {
+						return nil, err
+					}
+					return decs[d2](append([]byte{}, encs[e](p)...))
+				}})
+			}
+		}
+	}
+	first := map[string]func() (*ptypes.ConsensusPayload, error){
+		"built":     func() (*ptypes.ConsensusPayload, error) { p := &ptypes.ConsensusPayload{}; assignPayload(p, other); return p, nil },
+		"zero-copy": func() (*ptypes.ConsensusPayload, error) { return decZC(owire()) },
+		"streaming": func() (*ptypes.ConsensusPayload, error) { return decStream(owire()) },
+	}
+	for _, f := range []string{"built", "zero-copy", "streaming"} {
+		for _, refill := range []string{"zero-copy", "streaming", "assignment"} {
+			f, refill := f, refill
+			out = append(out, plProv{"reused/" + f + "-then-" + refill, "reused", func() (*ptypes.ConsensusPayload, error) {
+				p, err := first[f]()
+				if err != nil {
+					return nil, err
+				}
+				switch refill {
+				case "zero-copy":
+					err = intoZC(p, wire())
+				case "streaming":
+					err = intoStream(p, wire())
+				default:
+					assignPayload(p, orig)
+				}
+				return p, err
+			}})
+		}
+	}
+	return out
+}
+
+type plMut struct {
+	name string
+	mod  func(p *ptypes.ConsensusPayload)
+}
+
+func part6Provenance(r *ev.Run) {
+	// ---- ConsensusPayload
+	endorse := vbft.VerifMsgEndorse(2, 1, 10, common.Uint256(hash32("blk")), false, nil, pat(64, 1), pat(64, 2))
+	endorseBytes, _ := vbft.SerializeVbftMsg(endorse)
+	mk := func(f plFields) *ptypes.ConsensusPayload { p := f.build(); signPayload(p, keys[f.Owner]); return p }
+	bases := []struct {
+		name        string
+		orig, other *ptypes.ConsensusPayload
+	}{
+		{"endorse-msg", mk(plFields{Data: endorseBytes, Owner: 0}), mk(plFields{Version: 1, Height: 5, Data: pat(77, 3), Owner: 1})},
+		{"all-fields-set", mk(plFields{Version: 1, PrevHash: common.Uint256(hash32("q")), Height: 9, BkIndex: 2, Timestamp: 77, Data: pat(300, 0), Owner: 1}),
+			mk(plFields{Version: 1, PrevHash: common.Uint256(hash32("q")), Height: 10, BkIndex: 2, Timestamp: 77, Data: pat(300, 0), Owner: 1})},
+	}
+	nPl := 0
+	for _, b := range bases {
+		origWire := encZC(b.orig)
+		otherSig := b.other.Signature
+		muts := []plMut{
+			{"Version+1", func(p *ptypes.ConsensusPayload) { p.Version++ }},
+			{"Version-1", func(p *ptypes.ConsensusPayload) { p.Version-- }},
+			{"Height+1", func(p *ptypes.ConsensusPayload) { p.Height++ }},
+			{"Height-1", func(p *ptypes.ConsensusPayload) { p.Height-- }},
+			{"BookkeeperIndex+1", func(p *ptypes.ConsensusPayload) { p.BookkeeperIndex++ }},
+			{"BookkeeperIndex-1", func(p *ptypes.ConsensusPayload) { p.BookkeeperIndex-- }},
+			{"Timestamp+1", func(p *ptypes.ConsensusPayload) { p.Timestamp++ }},
+			{"Timestamp-1", func(p *ptypes.ConsensusPayload) { p.Timestamp-- }},
+			{"PrevHash-byte0", func(p *ptypes.ConsensusPayload) { p.PrevHash[0] ^= 1 }},
+			{"PrevHash-byte31", func(p *ptypes.ConsensusPayload) { p.PrevHash[31] ^= 0x80 }},
+			{"Data-replaced-first-byte-flipped", func(p *ptypes.ConsensusPayload) { d := append([]byte{}, p.Data...); d[0] ^= 1; p.Data = d }},
+			{"Data-replaced-last-byte-flipped", func(p *ptypes.ConsensusPayload) { d := append([]byte{}, p.Data...); d[len(d)-1] ^= 0x80; p.Data = d }},
+			{"Data-in-place-byte-flipped", func(p *ptypes.ConsensusPayload) { p.Data[len(p.Data)/2] ^= 1 }},
+			{"Data-appended", func(p *ptypes.ConsensusPayload) { p.Data = append(append([]byte{}, p.Data...), 0) }},
+			{"Data-nil", func(p *ptypes.ConsensusPayload) { p.Data = nil }},
+			{"Owner-swapped", func(p *ptypes.ConsensusPayload) { p.Owner = keys[3].Pub }},
+			{"Signature-replaced-first-byte-flipped", func(p *ptypes.ConsensusPayload) { s := append([]byte{}, p.Signature...); s[0] ^= 1; p.Signature = s }},
+			{"Signature-in-place-last-byte-flipped", func(p *ptypes.ConsensusPayload) { p.Signature[len(p.Signature)-1] ^= 1 }},
+			{"Signature-of-the-other-payload", func(p *ptypes.ConsensusPayload) { p.Signature = append([]byte{}, otherSig...) }},
+		}
+		for _, pv := range payloadProvenances(b.orig, b.other) {
+			for _, verifiedFirst := range []bool{false, true} {
+				state := pv.name
+				if verifiedFirst {
+					state += "/verified-before-mutation"
+				}
+				fresh := func() *ptypes.ConsensusPayload {
+					p, err := pv.make()
+					if err != nil {
+						r.Violation("payload-provenance:cannot-reach-state:"+pv.class, map[string]any{"base": b.name, "state": state, "err": err.Error()})
+						return nil
+					}
+					return p
+				}
+				p := fresh()
+				if p == nil {
+					break
+				}
+				r.Eval()
+				nPl++
+				if !verifyPayload(p) {
+					r.Violation("payload-verify:rejects-unmutated-object:"+pv.class, map[string]any{"base": b.name, "state": state})
+				} else if !bytes.Equal(encZC(p), origWire) || !bytes.Equal(encStream(p), origWire) {
+					r.Violation("payload-provenance:encoding-differs-from-original:"+pv.class, map[string]any{"base": b.name, "state": state})
+				} else {
+					r.Class("provenance_payload_accept")
+				}
+				for _, m := range muts {
+					q := fresh()
+					if q == nil {
+						break
+					}
+					if verifiedFirst {
+						_ = verifyPayload(q)
+						_ = q.Hash()
+					}
+					if _, pn := ev.Guard(func() { m.mod(q) }); pn {
+						continue
+					}
+					r.Eval()
+					nPl++
+					stale := bytes.Equal(encZC(q), origWire) || bytes.Equal(encStream(q), origWire)
+					switch {
+					case verifyPayload(q):
+						r.Violation("payload-verify:accepts-mutant-of-object:"+pv.class, map[string]any{"base": b.name, "state": state, "mutation": m.name})
+					case stale:
+						r.Violation("payload-provenance:encoding-ignores-mutation:"+pv.class, map[string]any{"base": b.name, "state": state, "mutation": m.name})
+					default:
+						r.Class("provenance_payload_mutant_rejected")
+					}
+				}
+			}
+			r.Case("provenance/payload/" + b.name + "/" + pv.name)
+		}
+	}
+	r.Note("provenance_payload_evaluations", nPl)
+
+	// ---- block proposal (Block and EmptyBlock signatures)
+	obs := map[string]int{}
+	nProp := 0
+	for bi, pb := range propBases {
+		pub := keys[pb.proposer].Pub
+		origWire := encodeProposal(pb.spec.build())
+		otherWire := encodeProposal(propBases[(bi+1)%len(propBases)].spec.build())
+		payloadOf := func(w []byte) []byte {
+			env := map[string]json.RawMessage{}
+			_ = json.Unmarshal(w, &env)
+			var pl []byte
+			_ = json.Unmarshal(env["payload"], &pl)
+			return pl
+		}
+		dec := func(w []byte) (vbft.ConsensusMsg, error) { return vbft.DeserializeVbftMsg(append([]byte{}, w...)) }
+		provs := []struct {
+			name, class string
+			make        func() (vbft.ConsensusMsg, error)
+		}{
+			{"decoded", "decoded", func() (vbft.ConsensusMsg, error) { return dec(origWire) }},
+			{"reencoded", "reencoded", func() (vbft.ConsensusMsg, error) {
+				m, err := dec(origWire)
+				if err != nil {
+					return nil, err
+				}
+				w, err := vbft.SerializeVbftMsg(m)
+				if err != nil {
+					return nil, err
+				}
+				return dec(w)
+			}},
+			{"reused/msg.UnmarshalJSON", "reused", func() (vbft.ConsensusMsg, error) {
+				m, err := dec(otherWire)
+				if err != nil {
+					return nil, err
+				}
+				return m, m.(interface{ UnmarshalJSON([]byte) error }).UnmarshalJSON(payloadOf(origWire))
+			}},
+			{"reused/Block.Deserialize", "reused", func() (vbft.ConsensusMsg, error) {
+				m, err := dec(otherWire)
+				if err != nil {
+					return nil, err
+				}
+				return m, vbft.VerifProposalBlock(m).Deserialize(payloadOf(origWire))
+			}},
+		}
+		o, _ := dec(origWire)
+		origBlk, origEmpty := signedContent(vbft.VerifProposalBlock(o).Block), signedContent(vbft.VerifProposalBlock(o).EmptyBlock)
+		origHash := vbft.VerifProposalBlock(o).Block.Hash()
+		type bm struct {
+			name string
+			mod  func(b *types.Block)
+		}
+		hm := []bm{
+			{"Height+1", func(b *types.Block) { b.Header.Height++ }},
+			{"Height-1", func(b *types.Block) { b.Header.Height-- }},
+			{"Timestamp+1", func(b *types.Block) { b.Header.Timestamp++ }},
+			{"ChainID+1", func(b *types.Block) { b.Header.ChainID++ }},
+			{"ConsensusData-1", func(b *types.Block) { b.Header.ConsensusData-- }},
+			{"PrevBlockHash-byte", func(b *types.Block) { b.Header.PrevBlockHash[3] ^= 1 }},
+			{"TransactionsRoot-byte", func(b *types.Block) { b.Header.TransactionsRoot[0] ^= 1 }},
+			{"CrossStateRoot-byte", func(b *types.Block) { b.Header.CrossStateRoot[31] ^= 1 }},
+			{"BlockRoot-byte", func(b *types.Block) { b.Header.BlockRoot[7] ^= 0x80 }},
+			{"NextBookkeeper-byte", func(b *types.Block) { b.Header.NextBookkeeper[0] ^= 1 }},
+			{"ConsensusPayload-replaced", func(b *types.Block) { b.Header.ConsensusPayload = append(append([]byte{}, b.Header.ConsensusPayload...), ' ') }},
+			{"SigData0-replaced-byte-flipped", func(b *types.Block) { s := append([]byte{}, b.Header.SigData[0]...); s[5] ^= 1; b.Header.SigData[0] = s }},
+		}
+		for _, pv := range provs {
+			state := pb.name + "/" + pv.name
+			m, err := pv.make()
+			r.Eval()
+			nProp++
+			if err != nil {
+				r.Violation("proposal-provenance:cannot-reach-state:"+pv.class, map[string]any{"state": state, "err": err.Error()})
+				continue
+			}
+			w, _ := vbft.SerializeVbftMsg(m)
+			blk := vbft.VerifProposalBlock(m)
+			verr := fmt.Errorf("panic")
+			ev.Guard(func() { verr = m.Verify(pub) })
+			if verr != nil {
+				r.Violation("proposal-verify:rejects-unmutated-object:"+pv.class, map[string]any{"state": state, "err": verr.Error()})
+			} else if !bytes.Equal(w, origWire) || signedContent(blk.Block) != origBlk || signedContent(blk.EmptyBlock) != origEmpty || blk.Block.Hash() != origHash {
+				r.Violation("proposal-provenance:content-differs-from-original:"+pv.class, map[string]any{"state": state})
+			} else {
+				r.Class("provenance_proposal_accept")
+			}
+			for _, which := range []string{"Block", "EmptyBlock"} {
+				if which == "EmptyBlock" && !pb.spec.Empty {
+					continue
+				}
+				for _, mu := range hm {
+					q, err := pv.make()
+					if err != nil {
+						break
+					}
+					qb := vbft.VerifProposalBlock(q)
+					tb := qb.Block
+					if which == "EmptyBlock" {
+						tb = qb.EmptyBlock
+					}
+					if _, pn := ev.Guard(func() { mu.mod(tb) }); pn { // before any Hash()/Verify() of this object
+						continue
+					}
+					r.Eval()
+					nProp++
+					var verr error
+					if _, pn := ev.Guard(func() { verr = q.Verify(pub) }); pn {
+						verr = fmt.Errorf("panic")
+					}
+					w2, _ := vbft.SerializeVbftMsg(q)
+					hashStale := !strings.HasPrefix(mu.name, "SigData") && signedContent(tb) == map[string]string{"Block": origBlk, "EmptyBlock": origEmpty}[which]
+					switch {
+					case verr == nil:
+						r.Violation("proposal-verify:accepts-mutant-of-object:"+pv.class, map[string]any{"state": state, "mutation": which + "." + mu.name})
+					case bytes.Equal(w2, origWire) || hashStale:
+						r.Violation("proposal-provenance:encoding-or-hash-ignores-mutation:"+pv.class, map[string]any{"state": state, "mutation": which + "." + mu.name})
+					default:
+						r.Class("provenance_proposal_mutant_rejected")
+					}
+					// information only: the same mutation on an object that was verified (hashed) BEFORE the mutation
+					q2, err := pv.make()
+					if err == nil {
+						qb2 := vbft.VerifProposalBlock(q2)
+						tb2 := qb2.Block
+						if which == "EmptyBlock" {
+							tb2 = qb2.EmptyBlock
+						}
+						ok2 := false
+						ev.Guard(func() { _ = q2.Verify(pub); mu.mod(tb2); ok2 = q2.Verify(pub) == nil })
+						if !strings.HasPrefix(mu.name, "SigData") && ok2 {
+							obs["accepted: header field changed AFTER Header.Hash() was cached (types.Header never invalidates its hash)"]++
+						} else {
+							obs["rejected although verified before the mutation"]++
+						}
+					}
+				}
+			}
+			r.Case("provenance/proposal/" + state)
+		}
+	}
+	r.Note("provenance_proposal_evaluations", nProp)
+	r.Note("provenance_proposal_verified_then_mutated_observation", obs)
+
+	// ---- endorse / commit votes: Verify binds (block hash, own signature, key)
+	hash := common.Uint256(hash32("blk"))
+	hash2 := common.Uint256(hash32("blk2"))
+	signer := keys[1]
+	sig, _ := signature.Sign(signer, hash[:])
+	sig2, _ := signature.Sign(signer, hash2[:])
+	votes := []struct {
+		kind, hashField, sigField string
+		orig, other                vbft.ConsensusMsg
+	}{
+		{"endorse", "EndorsedBlockHash", "EndorserSig", vbft.VerifMsgEndorse(2, 1, 10, hash, false, nil, pat(64, 1), sig), vbft.VerifMsgEndorse(2, 1, 10, hash2, true, nil, pat(64, 1), sig2)},
+		{"commit", "CommitBlockHash", "CommitterSig", vbft.VerifMsgCommit(2, 1, 10, hash, false, nil, pat(64, 1), map[uint32][]byte{3: pat(64, 4)}, sig),
+			vbft.VerifMsgCommit(2, 1, 10, hash2, true, nil, pat(64, 1), map[uint32][]byte{3: pat(64, 5)}, sig2)},
+	}
+	nVote := 0
+	for _, v := range votes {
+		origWire, _ := vbft.SerializeVbftMsg(v.orig)
+		otherWire, _ := vbft.SerializeVbftMsg(v.other)
+		origInner, _ := v.orig.Serialize()
+		provs := []struct {
+			name, class string
+			make        func() (vbft.ConsensusMsg, error)
+		}{
+			{"decoded", "decoded", func() (vbft.ConsensusMsg, error) { return vbft.DeserializeVbftMsg(origWire) }},
+			{"reencoded", "reencoded", func() (vbft.ConsensusMsg, error) {
+				m, err := vbft.DeserializeVbftMsg(origWire)
+				if err != nil {
+					return nil, err
+				}
+				w, _ := vbft.SerializeVbftMsg(m)
+				return vbft.DeserializeVbftMsg(w)
+			}},
+			{"reused/json.Unmarshal", "reused", func() (vbft.ConsensusMsg, error) {
+				m, err := vbft.DeserializeVbftMsg(otherWire)
+				if err != nil {
+					return nil, err
+				}
+				return m, json.Unmarshal(origInner, m)
+			}},
+		}
+		for _, pv := range provs {
+			state := v.kind + "/" + pv.name
+			m, err := pv.make()
+			r.Eval()
+			nVote++
+			if err != nil {
+				r.Violation("vote-provenance:cannot-reach-state:"+pv.class, map[string]any{"state": state, "err": err.Error()})
+				continue
+			}
+			w, _ := vbft.SerializeVbftMsg(m)
+			verr := fmt.Errorf("panic")
+			ev.Guard(func() { verr = m.Verify(signer.Pub) })
+			if verr != nil {
+				r.Violation("vote-verify:rejects-unmutated-object:"+pv.class, map[string]any{"state": state, "err": verr.Error()})
+			} else if !bytes.Equal(w, origWire) {
+				r.Violation("vote-provenance:encoding-differs-from-original:"+pv.class, map[string]any{"state": state})
+			} else {
+				r.Class("provenance_vote_accept")
+			}
+			muts := []struct {
+				name string
+				mod  func(rv reflect.Value)
+				pub  keypair.PublicKey
+			}{
+				{"hash-byte0", func(rv reflect.Value) { f := rv.FieldByName(v.hashField).Index(0); f.SetUint(f.Uint() ^ 1) }, signer.Pub},
+				{"hash-byte31", func(rv reflect.Value) { f := rv.FieldByName(v.hashField).Index(31); f.SetUint(f.Uint() ^ 0x80) }, signer.Pub},
+				{"sig-replaced-byte-flipped", func(rv reflect.Value) {
+					f := rv.FieldByName(v.sigField)
+					s := append([]byte{}, f.Bytes()...)
+					s[9] ^= 1
+					f.SetBytes(s)
+				}, signer.Pub},
+				{"sig-in-place-byte-flipped", func(rv reflect.Value) { f := rv.FieldByName(v.sigField).Index(0); f.SetUint(f.Uint() ^ 1) }, signer.Pub},
+				{"other-key", func(rv reflect.Value) {}, keys[2].Pub},
+			}
+			for _, verifiedFirst := range []bool{false, true} {
+				for _, mu := range muts {
+					q, err := pv.make()
+					if err != nil {
+						break
+					}
+					if verifiedFirst {
+						ev.Guard(func() { _ = q.Verify(signer.Pub) })
+						_, _ = vbft.HashMsg(q)
+					}
+					if _, pn := ev.Guard(func() { mu.mod(reflect.ValueOf(q).Elem()) }); pn {
+						continue // mutation not applicable to this object (e.g. a field the codec lost: reported by part 1)
+					}
+					r.Eval()
+					nVote++
+					w2, _ := vbft.SerializeVbftMsg(q)
+					accepted := false
+					ev.Guard(func() { accepted = q.Verify(mu.pub) == nil })
+					switch {
+					case accepted:
+						r.Violation("vote-verify:accepts-mutant-of-object:"+pv.class, map[string]any{"state": state, "mutation": mu.name, "verified_before_mutation": verifiedFirst})
+					case mu.name != "other-key" && bytes.Equal(w2, origWire):
+						r.Violation("vote-provenance:encoding-ignores-mutation:"+pv.class, map[string]any{"state": state, "mutation": mu.name})
+					default:
+						r.Class("provenance_vote_mutant_rejected")
+					}
+				}
+			}
+			r.Case("provenance/vote/" + state)
+		}
+	}
+	r.Note("provenance_vote_evaluations", nVote)
+	r.Note("provenance_states", map[string]any{
+		"ConsensusPayload": "built; decoded by zero-copy / streaming / types.Consensus wrapper; decode>encode>decode in all 8 codec combinations; an object that held another signed payload (built / zero-copy / streaming) refilled by zero-copy Deserialization, streaming Deserialize or field assignment; each state also with Verify()+Hash() called before the mutation",
+		"blockProposalMsg": "decoded; decode>encode>decode; a decoded message of another proposal refilled through msg.UnmarshalJSON or Block.Deserialize; mutations precede the first Hash()/Verify() of the object (the verified-then-mutated state is reported, not alarmed: types.Header caches its hash for good)",
+		"blockEndorseMsg/blockCommitMsg": "decoded; decode>encode>decode; a decoded message of another vote refilled by json.Unmarshal; each also with Verify()+HashMsg() before the mutation",
+		"note": "ConsensusPayload.Hash() returns the zero hash constantly (no content hash exists to go stale)"})
 }
